@@ -120,6 +120,17 @@ CHECKS.update({
             SYMNOTE + "Abscissae strictly increasing along a depth; p >= 1.", "DESIGN.md §4 C10"),
 })
 
+CHECKS.update({
+    "C03": (True, "ownership analysis of the worklist + normal forms of every emitted critical point over typed bar symbols + "
+                  "site rules (copy-of-a-depth, mutate-while-iterating)",
+            CLAUSE + "Decides LX-COPY, LX-SORT, LX-EDGE, LX-NOCOPY, LX-ITER, LX-DEG — necessary conditions of the sweep. The "
+            "repeated-bar shortcut violates LX-NOCOPY/LX-ITER today: genuine, test-pinned defect, listed as known findings "
+            "K1a/K1b (any other violation of the same rules is still reported). Declines: that cases I/II/III reproduce the "
+            "k-th largest tent for every input.",
+            "Trusted: the Bubenik-Dlotko sweep is the algorithm implemented (a re-implementation yields exit 2, not a "
+            "violation); bars have positive length.", "DESIGN.md §4 C03, §5 K1"),
+})
+
 NOT_APPLICABLE = {
     "C05": "soundness of the mGH lower/upper bounds is a theorem about computed values for every graph pair and RNG "
            "draw; no ownership, ordering, wiring or algebraic-type argument implies it (DESIGN.md §6); nearby "
